@@ -8,14 +8,14 @@ from .c04 import post_case, run_post_case
 
 class C05(Prop):
   id = "C05"
-  quick_examples = 300
+  quick_examples = 400
   thorough_examples = 3000
   rule = ("Generated schedules under the deterministic scheduler (pre-emption at every source line "
           "of miros/activeobject.py and miros/hsm.py and at every virtual primitive operation): a "
           "running ActiveObject, 1-3 poster threads plus the body thread posting fifo/lifo events, "
           "optionally 1 or 497..500 events queued before start_at so that the bounded token queue "
           "is reached (one heavy case in ten on a subclass declaring QUEUE_SIZE 600 with 501/540 events waiting), optionally long bursts of 15-40 posts per poster that overlap the object's "
-          "steps, optionally with live spy/trace output switched on, optionally a state that empties the object's own queue (chart.queue.clear()) while the posters post; the generated schedule prefix is followed by fair round-robin. Oracle: the "
+          "steps, optionally with live spy/trace output switched on, optionally a state that empties the object's own queue (chart.queue.clear()) while the posters post; the generated schedule prefix is followed by fair round-robin; a regular family runs three small scenarios under 240 periodic schedules each (thread i mod k runs q lines, q = 1..60, k = 2..5). Oracle: the "
           "exact deadlock detector (every thread blocked, no timer pending) never fires, the step "
           "bound (400k scheduling steps, >100x the longest passing run) is never reached under the "
           "fair suffix, and at quiescence every poster has finished and the consumer is blocked "
@@ -29,6 +29,27 @@ class C05(Prop):
 
   def strategy(self, tier):
     return post_case(heavy=True)
+
+  def extra(self, tier, seed, shard, nshards, stats):
+    """A regular family for the narrowest windows between a poster and the consumer (the consumer
+    has just taken the LAST event when the next one arrives): small scenarios under periodic
+    schedules - thread i mod k runs q lines, for every q in 1..60 and k in 2..5."""
+    idx = 0
+    for posters in ([["fifo", "fifo"], ["fifo"]], [["lifo", "fifo"], ["fifo", "lifo"]], [["fifo"], ["fifo"], ["lifo"]]):
+      for k in (2, 3, 4, 5):
+        for q in range(1, 61):
+          idx += 1
+          if idx % nshards != shard:
+            continue
+          case = {"posters": posters, "body": ["fifo"], "prefill": [], "handler": {}, "heavy": 0,
+                  "subscribe": "none", "publishes": 0, "timer": None, "live": False,
+                  "schedule": [[i % k, q] for i in range(200)]}
+          try:
+            self.check(case, stats)
+          except PropertyViolation as v:
+            yield case, v
+            return
+    stats.classes["periodic_schedule_family"] = idx
 
   def check(self, case, stats):
     out = run_post_case(case)
